@@ -124,7 +124,9 @@ def main(argv):
     os.makedirs(os.path.join(VERIF, "evidence"), exist_ok=True)
     os.makedirs(os.path.join(VERIF, "replays"), exist_ok=True)
     v_units = list(P.get("verus", [])) + (list(P.get("verus_thorough", [])) if tier == "thorough" else [])
-    k_groups = list(P.get("kani", [])) + (list(P.get("kani_thorough", [])) if tier == "thorough" else [])
+    # "kani_extra": harnesses that need more than half an hour of CBMC time each; run only on request (VERIF_EXTRA=1 ./check Cnn thorough)
+    k_groups = list(P.get("kani", [])) + (list(P.get("kani_thorough", [])) if tier == "thorough" else []) \
+        + (list(P.get("kani_extra", [])) if tier == "thorough" and os.environ.get("VERIF_EXTRA") else [])
     results = {}
     kres = []
     with cf.ThreadPoolExecutor(max_workers=8) as ex:
